@@ -92,6 +92,7 @@ for a in ["interface-field", "union-field", "root-node", "node-interface-field"]
       witness="{ named { ... @skip(if: true) { ... on N1 { id } } } }")
 fixed("C01", "C01-fragment-directives-dropped", "34b5f2f", "{ n1s { ... @skip(if: true) { name } phone } } returned name; mutation ($inc: Boolean!) { ... on Mutation @include(if: $inc) { incr(by: 1) } } with inc=false executed the mutation: a fragment on an object type was dissolved into its parent and its directives were dropped")
 fixed("C16", "C16-directives-on-gateway-answered-fields", "8789bc3", "{ __type(name: \"N1\") { kind @skip(if: true) name } } answered kind, { __type(name: \"N1\") { ... @skip(if: true) { kind } name } } too, { ... @skip(if: true) { __typename } echo } answered __typename: @skip/@include were never applied to the fields the gateway answers itself (introspection, root __typename)")
+fixed("C07", "C07-variable-in-custom-scalar-literal", "2415b59", "query ($a: String) { when(at: [$a]) } with `when(at: DateTime)`: a list or object literal for a custom scalar has no expected types inside; formatting the sub-request dereferenced a nil type in a worker goroutine (the process died); when(at: {k: $a}) left $a undeclared in the sub-request (C02)")
 fixed("C13", "C13-introspection-list-order", "9452942", "{ __schema { types { kind } } } / { types { n: name } }: the lists under __schema were sorted by the `name` key of the answer only; without it they came back in map iteration order")
 fixed("C19", "C19-literal-forwards-variable", "fe55c44", 'mutation ($f: Upload) { upload(f: $f) plain1(s: "f") }: the step variable list was filled with the raw text of every argument value; a literal reading like a variable name made the step forward that variable (here: the file) to a service which does not use it')
 fixed("C15", "C15-default-named-roots-lost", "5e01f44", "schema { query: RootQuery mutation: Mutation }: the reconstruction printed a schema block with the renamed root only and lost the default-named Mutation (Subscription) root")
